@@ -77,6 +77,10 @@ def exh_alphabet(k):
         for addr in ((None, 0, 4, 6) if full else (None, 4)):
             for anon in (0, 1):
                 A.append(("win", caw, addr, anon))
+    if full:
+        for addr in (None, 0, 2, 4):          # dense windows: a 4-bit-wide child of 8 / 16 words seen through ratio 2
+            for caw in (3, 4):
+                A.append(("dwin", caw, addr))
     return A
 
 
@@ -101,6 +105,13 @@ def gen_exh(idx, k):
             ops.append(("align", 0, a[1]))
         elif a[0] == "freeze":
             ops.append(("freeze", 0))
+        elif a[0] == "dwin":
+            ch = nmaps
+            nmaps += 1
+            ops.append(("new", ch, a[1], 4, 1))
+            ops.append(("res", ch, nres, (f"c{j}",), 2, None, None))
+            nres += 1
+            ops.append(("win", 0, ch, (f"w{j}",), a[2], False))
         else:
             ch = nmaps
             nmaps += 1
@@ -274,12 +285,19 @@ def gen_case(seed, idx, profile, k=None):
                 shared.append((ch, sparse, caw, dw))
                 if rnd.random() < 0.1:
                     ops.append(("win", h, ch, name(), None, sparse))   # add the same window again
-                if profile != "names" and rnd2.random() < 0.3:
-                    # a map used as a window is frozen: adding to it afterwards must be refused
+                if rnd2.random() < 0.3:
+                    # a map used as a window (named or anonymous) is frozen: adding to it afterwards must be refused
                     rid = nres[0]
                     nres[0] += 1
                     ucount[0] += 1
-                    ops.append(("res", ch, rid, ("late%d" % ucount[0],), 1, None, None))
+                    ops.append(("res", ch, rid, ("late%d" % ucount[0],) if profile != "names" else gen_name(rnd2), 1, None, None))
+                if profile == "alloc" and waddr is not None and mode >= 0.75 and rnd2.random() < 0.5:
+                    # the last addresses of a dense window's span belong to the window too
+                    rid = nres[0]
+                    nres[0] += 1
+                    ucount[0] += 1
+                    span = max(1, (1 << caw) // ratio)
+                    ops.append(("res", h, rid, ("tail%d" % ucount[0],), 1, waddr + span - 1 - rnd2.randrange(min(span, ratio - 1) or 1), None))
 
     if big:
         aw = rnd.choice([16, 32, 64])
